@@ -366,4 +366,57 @@ Proof.
     destruct (Hbwd _ _ Hy') as (y & Hy & _ & _ & _ & _ & Hn & _).
     destruct (iv_after _ _ HI Hsd j y Hy); auto.
 Qed.
+
+(* ---- threads: the shutdown program counter ----------------------------------------------------------------- *)
+Lemma step_core_dpc s th e s' : step_core s th e = Some s' -> own_ev e = false ->
+  (forall th', th' <> th -> dpc (get_thread s' th') = dpc (get_thread s th')) /\
+  match e with
+  | EShutdownOrder order => dpc (get_thread s' th) = DLoop order order \/ dpc (get_thread s' th) = DWaitAll order
+  | EShutdownEnd => dpc (get_thread s' th) = DEnded
+  | EShutdownCall => dpc (get_thread s' th) = DCalled
+  | EShutdownBegin => dpc (get_thread s' th) = DBegun
+  | EShutdownUnlocked => dpc (get_thread s' th) = DNone
+  | EStopReturn i => dpc (get_thread s' th) = dpc (get_thread s th) \/
+                     exists order rest, dpc (get_thread s th) = DLoop order (i :: rest) /\ dpc (get_thread s' th) = DLoop order rest
+  | _ => dpc (get_thread s' th) = dpc (get_thread s th)
+  end.
+Proof.
+  intros H Hev. unfold step_core in H. destruct e; try discriminate Hev; kind_cases H.
+  all: try match goal with |- context[match dpc ?t with _ => _ end] => destruct (dpc t) as [| | |? [|? ?]| |] eqn:Ed end.
+  all: split; [intros th' Hne; unfold set_pc, end_finish; autorewrite with sup;
+               try rewrite (proj2 (N.eqb_neq th th')) by congruence;
+               repeat match goal with |- context[if ?b then _ else _] => destruct b end; autorewrite with sup;
+               try rewrite (proj2 (N.eqb_neq th th')) by congruence; reflexivity|].
+  all: unfold set_pc, end_finish; autorewrite with sup; rewrite ?N.eqb_refl; cbn; try reflexivity.
+  all: try (left; assumption).
+  all: try (destruct (N.eqb_spec i i2); [subst i2|]; autorewrite with sup; rewrite N.eqb_refl; cbn; [right; eauto|left; assumption]).
+  - destruct (ordered s); auto.
+  - destruct ready; autorewrite with sup; reflexivity.
+Qed.
+
+Lemma obs_sd_cur_order o th order : o_sd_cur (obs_pre cs o (th, EShutdownOrder order)) = set th order (o_sd_cur o).
+Proof. cbn. f_equal. fold_proj o_sd_cur. reflexivity. Qed.
+Lemma obs_sd_cur_end o th : o_sd_cur (obs_pre cs o (th, EShutdownEnd)) = del th (o_sd_cur o).
+Proof. reflexivity. Qed.
+
+Lemma c_sd_step s o th e s' : Inv s o -> step_core s th e = Some s' -> own_ev e = false -> c_sd s' (obs_pre cs o (th, e)).
+Proof.
+  intros HI H Hev. destruct (step_core_dpc _ _ _ _ H Hev) as [Hoth Hth].
+  intros th' order Hd. destruct (N.eq_dec th' th) as [->|Hne].
+  - destruct e; try discriminate Hev;
+    try (rewrite obs_pre_sd_cur by exact I; rewrite Hth in Hd; now apply (iv_sd _ _ HI)).
+    + (* EStopReturn *) rewrite obs_pre_sd_cur by exact I. destruct Hth as [Hth|(ord0 & rest & E1 & E2)].
+      * rewrite Hth in Hd. now apply (iv_sd _ _ HI).
+      * rewrite E2 in Hd. apply (iv_sd _ _ HI). destruct Hd as [[r Hd]|Hd]; [|discriminate]. injection Hd as <- <-. left. eauto.
+    + rewrite Hth in Hd. destruct Hd as [[r Hd]|Hd]; discriminate.
+    + rewrite Hth in Hd. destruct Hd as [[r Hd]|Hd]; discriminate.
+    + rewrite obs_sd_cur_order, get_set_same. destruct Hth as [Hth|Hth]; rewrite Hth in Hd; destruct Hd as [[r Hd]|Hd]; congruence.
+    + rewrite Hth in Hd. destruct Hd as [[r Hd]|Hd]; discriminate.
+    + rewrite Hth in Hd. destruct Hd as [[r Hd]|Hd]; discriminate.
+  - rewrite (Hoth th' Hne) in Hd. pose proof (iv_sd _ _ HI th' order Hd) as Hg.
+    destruct e; try discriminate Hev; try (rewrite obs_pre_sd_cur by exact I; exact Hg).
+    + rewrite obs_sd_cur_order, get_set_other by congruence. exact Hg.
+    + rewrite obs_sd_cur_end, get_del_other by congruence. exact Hg.
+Qed.
+(*STOP*)
 End RelC03.
